@@ -231,6 +231,8 @@ def check_c15(tier, rep=None, only_complete=False, only=None):
                 cvflat[i] = rr['results'][0]
     cases_out, info = [], []
     n_varlab = 0
+    crash_ctx, tight = {}, set()
+    case_ref = []
     for i, m in enumerate(meta):
         chrom = m['ref'].chroms['chr1']
         ctx0 = dict(gtf=m['ref'].gtf_lines(), chroms=m['ref'].chroms, thresholds=m['th'], small=[(v['tx'], v['id'], v['start']) for v in m['small']])
@@ -243,10 +245,10 @@ def check_c15(tier, rep=None, only_complete=False, only=None):
                     if e.startswith('FUSION-'):
                         peps_by_fusion.setdefault(e.split('|')[0], set()).add(s)
                         n_varlab += len(e.split('|')) > 2
-        elif cv is not None and star_has_records and only != 'peptides_from_fused_sequence' and i not in crashed:
-            rep.violation(f"cv-crash:{env.canon_hash(ctx0)}", f"callVariant raised on parseSTARFusion output: {cv['error']}", ctx0)
-        if i in crashed and only != 'peptides_from_fused_sequence':   # no FASTA: nothing unsound, so not reported by C02
-            rep.violation(f"cv-crash:{env.canon_hash(ctx0)}", f"callVariant raised on parseSTARFusion output: {crashed[i]}", ctx0)
+        elif cv is not None and star_has_records and i not in crashed:
+            crashed[i] = cv['error']
+        if i in crashed:
+            crash_ctx[i] = ctx0
         for ti, tool in enumerate(TOOLS):
             x = flat[3 * i + ti]
             key0 = env.canon_hash([ctx0, tool])
@@ -295,6 +297,7 @@ def check_c15(tier, rep=None, only_complete=False, only=None):
                                       cvran=bool(tool == 'star' and cv is not None and cv['ok']),
                                       allobs=[list(sq) for _, sq in cv['fasta']] if (tool == 'star' and cv is not None and cv['ok']) else [],
                                       proteome=cvgen.proteome_record(m['ref'])))
+                case_ref.append(i)
                 info.append((key0, tool, dict(ctx0, row=dict(donor=c['gdid'], acceptor=c['gaid'], lb=c['lb'], rb=c['rb'],
                                                             est_j=c['est_j'], common=c['common'], unique=c['unique'], sr1=c['sr1'],
                                                             sr2=c['sr2'], conf=c['conf'])), bool(mine), len(peps)))
@@ -307,8 +310,11 @@ def check_c15(tier, rep=None, only_complete=False, only=None):
             if not only and (mt or recs) and (not mt or int(mt.group(1)) != len(m['cases'])):     # the tally is only logged when records were written
                 rep.violation(f"tally:{tool}:{key0}", f"{tool}: tally total {mt and mt.group(1)} != rows {len(m['cases'])}", dict(ctx0, log=log[-500:]))
     verdicts = tlc_cases('FusionTrace', cases_out, work, 'fusion', rep)
-    for (key0, tool, ctx, hit, npep), vs in zip(info, verdicts):
+    for ci_, ((key0, tool, ctx, hit, npep), vs) in enumerate(zip(info, verdicts)):
         vs = [v.strip('"') for v in vs]
+        if 'info_tight_junction' in vs:
+            tight.add(case_ref[ci_])
+        vs = [v for v in vs if not v.startswith('info_')]
         rep.traces(1); rep.case(1, (key0, json.dumps(ctx['row'], sort_keys=True)) if hit else None)
         if 'done' not in vs:
             rep.machinery(f"no verdict for fusion case {key0}")
@@ -318,6 +324,35 @@ def check_c15(tier, rep=None, only_complete=False, only=None):
         if bad:
             rep.violation(f"fusion:{tool}:{key0}:{env.canon_hash(ctx['row'])}:{','.join(bad)}",
                           f"{tool} fusion row {ctx['row']} violates {bad}", ctx)
+    # a run that raised: no FASTA, so nothing unsound (not reported by C02); reported by C15 and C01.  The recorded crash class is
+    # recognised by its message and by the geometry TLC found in one of the reference's rows (TightJunction)
+    if only != 'peptides_from_fused_sequence':
+        for i, err in sorted(crashed.items()):
+            ctx0 = crash_ctx.get(i, {})
+            if 'Downstream node becomes empty' in str(err) and i in tight:
+                rep.violation('fusion_crash_variants_one_base_either_side_of_junction',
+                              f"callVariant raised on parseSTARFusion output: {err}", ctx0)
+            else:
+                rep.violation(f"cv-crash:{env.canon_hash(ctx0)}", f"callVariant raised on parseSTARFusion output: {err}", ctx0)
+    # the recorded instance of that crash class (corpus/C15_fusion_crash_tight_junction)
+    src = os.path.join(env.VERIF, 'corpus', 'C15_fusion_crash_tight_junction')
+    if only != 'peptides_from_fused_sequence' and os.path.isdir(src):
+        a = dict(genome_fasta=os.path.join(src, 'genome.fasta'), annotation_gtf=os.path.join(src, 'annotation.gtf'),
+                 proteome_fasta=os.path.join(src, 'proteome.fasta'))
+        a.update(cvgen.cli_cfg(CFG))
+        a.update(input_path=[os.path.join(src, 'fusion.gvf'), os.path.join(src, 'small.gvf')], output_path=os.path.join(work, 'corpus_tight.fasta'),
+                 max_variants_per_node=[-1], additional_variants_per_misc=[-1])
+        rr = jobs.run_jobs('run_cv_batch.py', [dict(jobs=[dict(cmd='callVariant', args=a)])], timeout=600)
+        x = rr[0]['results'][0] if rr and rr[0].get('ok') else None
+        rep.traces(1); rep.case(1, 'corpus_tight_junction')
+        if x is None:
+            rep.machinery('corpus C15_fusion_crash_tight_junction did not run')
+        elif not x['ok'] and 'Downstream node becomes empty' in str(x['error']):
+            rep.violation('fusion_crash_variants_one_base_either_side_of_junction',
+                          f"corpus/C15_fusion_crash_tight_junction: callVariant raised {x['error']}", dict(corpus='corpus/C15_fusion_crash_tight_junction'))
+        elif not x['ok']:
+            rep.violation('cv-crash:corpus_tight_junction', f"corpus/C15_fusion_crash_tight_junction: callVariant raised {x['error']}",
+                          dict(corpus='corpus/C15_fusion_crash_tight_junction'))
     rep.part('fusion', peptides_checked=sum(x[4] for x in info), rows=len(info), fusion_labels_with_small_variants=n_varlab)
     if only_complete:
         return None
